@@ -30,16 +30,19 @@ func init() {
 		Level: "exploration",
 		Rule: "failing programs: generated core programs with a buried ill-typed / wrong-arity / unbound / error form (every position class the generator reaches: argument, operator position, binding initialiser, body, handler expression and body, callbacks of map/foldl/select, nested call depth), and macro templates (failing form written in the template vs built by the macro without position), rendered with random layout (newlines, indentation, comments) so spans move; " +
 			"the family 'handler work before rethrow' puts handlers between the failing form of any of those programs and the host (top-level forms and function bodies wrapped in handler-bind) whose handlers do work before (rethrow) - a nested handler-bind whose body succeeds / whose own binding handles its error / whose error matches no binding and is swallowed by ignore-errors, a helper that uses handler-bind, tail loops, a nested rethrow that is caught or ignored - as the last form, under progn/let/if, through several layers, or from a handler nested up to three deep inside running handlers that failed anew; the host's error keeps location, trace, condition and (for `error`) data; " +
+			"the family 'where in an expansion the position-less node sits' (c18_expansion.go) enumerates slot (let / let* initialiser, flet / labels / macrolet body, handler expression and body, dotimes count and result, cond test and clause body, a let nested in an initialiser; plain argument, lambda body and the expansion's root as controls) x spelling of the lists between the expansion's root and the slot (parens, bracket entries, bracket list, both, made by list / cons / append / concat) x builder (defmacro / macrolet template with the node spliced in by unquote, template whose entry is computed by (list ..), expansion made entirely by list calls, host Go macro registered through AddMacros building with lisp.SExpr / lisp.QExpr / lisp.Symbol; optionally behind an outer macro) and samples failure kind (unbound generated symbol; for host macros also type, arity, `error`), one to four call sites of the macro in different contexts (earlier uses succeed or are swallowed, the last fails); two sub-classes let a position-less value reach the expansion by a route of its own (the root is a tail / slice of a quoted literal; a generated symbol made once and spliced into every expansion); " +
 			"distinct_nontrivial counts distinct (error class, innermost three frame kinds, position-in-source class) signatures",
 		Assumptions: []string{
 			"a function call is active from application (after its arguments were evaluated); special operators are active while their sub-forms run; a macro only during expansion",
 			"site classes judged: unbound symbol -> the symbol; error / argument rejection by a function or operator -> the call expression; template-written forms keep their position; forms a macro builds without position take the macro call site. Other error classes (head not a function, malformed special forms, errors under thread-first/last whose calls are built without position) must lie inside the source and inside the failing top-level form, nothing more",
 			"docs/lang.md 'Rethrowing Errors': (rethrow) re-raises the error the innermost running handler was called with, with its original trace and condition data, whatever handler-bind / ignore-errors forms began and ended while that handler ran; a changed condition is blamed on the handlers' work only when a control (same handlers, work left out) delivers the model's condition",
+			"a position-less node of an expansion takes the call site of the macro call whose expansion is being evaluated, whatever list of the expansion it sits in (paren, bracket, lisp.QExpr, a list made by list / cons at expansion time) and however it got there: the list header that cdr / rest / slice return is a new, position-less node even when its elements are a literal's, and a position-less value spliced into several expansions takes the call site of each (the model stamps a copy)",
 			"a callee invoked by a builtin function on the program's behalf (callbacks of map, foldl, select, funcall, apply, stable-sort, ...) is called from that builtin's call expression, with and without elimination; for handlers and for all?/any? (which evaluate a call expression they build themselves, without position) only the callee's order and name are compared",
 		},
-		Cases:       func(tier string) int { return c18BaseCases(tier) + pick(tier, 2400, 80000) },
+		Cases:       func(tier string) int { return c18BaseCases(tier) + c18HWCases(tier) + c18ExpansionCases(tier) },
 		Run:         c18Run,
 		Init:        c18Init,
+		Driver:      c18Driver,
 		MinDistinct: func(tier string) int { return pick(tier, 800, 1400) },
 	})
 }
@@ -115,13 +118,45 @@ var c18UnpositionedCallbacks = map[string]bool{"all?": true, "any?": true, "hand
 // c18Cases: the base families fill the first c18BaseCases indices, the family
 // "handler work before rethrow" (c18_handlerwork.go) the rest.
 func c18BaseCases(tier string) int { return pick(tier, 16000, 500000) }
+func c18HWCases(tier string) int   { return pick(tier, 2400, 80000) }
 
-func c18Program(w *fw.W, idx int) ([]*sx.N, string, map[string]bool, *c18HW) {
+// the family "where in an expansion the position-less node sits" (c18_expansion.go)
+// is appended after those two, so the earlier indices generate what they generated before
+func c18Program(w *fw.W, idx int) ([]*sx.N, string, map[string]bool, *c18HW, *c18EX) {
+	if k := idx - c18BaseCases(w.Tier) - c18HWCases(w.Tier); k >= 0 {
+		forms, label, feats, ex := c18ExpansionProgram(w, idx, k)
+		return forms, label, feats, nil, ex
+	}
 	if idx >= c18BaseCases(w.Tier) {
-		return c18HandlerWorkProgram(w, idx, false)
+		forms, label, feats, hw := c18HandlerWorkProgram(w, idx, false)
+		return forms, label, feats, hw, nil
 	}
 	forms, label, feats := c18BaseProgram(w, idx)
-	return forms, label, feats, nil
+	return forms, label, feats, nil, nil
+}
+
+// c18Driver: the appended family must have produced judged programs in every slot,
+// spelling and builder class; otherwise the run says nothing about them.
+func c18Driver(d *fw.D) {
+	if got, want := d.Counters["expansion_programs_compared"], int64(c18ExpansionCases(d.Tier)/2); got < want {
+		d.Inconclusive(fmt.Sprintf("family expansion-position: %d programs were compared with the model, at least %d expected", got, want))
+	}
+	for _, sp := range []string{"root-is-tail-of-quoted-literal", "value-shared-with-earlier-expansion"} {
+		if d.Counters["expansion_special_programs:"+sp] == 0 {
+			d.Inconclusive("family expansion-position: no program of the sub-class " + sp)
+		}
+	}
+	if got := len(d.Sets["expansion_slots_compared"]); got != len(c18XSlots) {
+		d.Inconclusive(fmt.Sprintf("family expansion-position: %d of %d slots produced a judged program", got, len(c18XSlots)))
+	}
+	for _, b := range c18XBuilders {
+		if !d.Sets["expansion_builders_compared"][b] {
+			d.Inconclusive("family expansion-position: no judged program of builder " + b)
+		}
+	}
+	if got, want := len(d.Sets["expansion_classes_compared"]), pick(d.Tier, 150, 250); got < want {
+		d.Inconclusive(fmt.Sprintf("family expansion-position: %d distinct slot/spelling/builder classes were judged, at least %d expected", got, want))
+	}
 }
 
 func c18BaseProgram(w *fw.W, idx int) ([]*sx.N, string, map[string]bool) {
@@ -231,7 +266,7 @@ func c18MacroProgram(r *fw.RNG) []*sx.N {
 }
 
 func c18Run(w *fw.W, idx int) {
-	forms, label, feats, hw := c18Program(w, idx)
+	forms, label, feats, hw, ex := c18Program(w, idx)
 	src := sx.Render(forms, c01Layout(w.RNG(idx, "layout")))
 	// finding keys of the family "handler work before rethrow" name the class of
 	// work and of terminal its handlers were built with
@@ -240,10 +275,17 @@ func c18Run(w *fw.W, idx int) {
 		if hw != nil && rethrown {
 			return k + hw.suffix()
 		}
+		if ex != nil {
+			return ex.key(k)
+		}
 		return k
+	}
+	if ex != nil && ex.special != "" {
+		w.Count("expansion_special_programs:"+ex.special, 1)
 	}
 
 	in := refint.New()
+	ex.setupModel(in)
 	_, merr := func() (mv *refint.V, me *refint.Err) {
 		defer func() {
 			if rec := recover(); rec != nil {
@@ -260,6 +302,7 @@ func c18Run(w *fw.W, idx int) {
 	// what fails are C01's business: here they would only repeat that finding.
 	inq := refint.New()
 	inq.Quirks = refint.Quirks{LetStarSharedScope: true}
+	ex.setupModel(inq)
 	_, qerr := func() (mv *refint.V, me *refint.Err) {
 		defer func() {
 			if rec := recover(); rec != nil {
@@ -276,9 +319,11 @@ func c18Run(w *fw.W, idx int) {
 	offOpts := rt.Opts{MaxSteps: 400_000, Debugger: true, MaxPhys: 4000}
 	onOpts := rt.Opts{MaxSteps: 400_000, MaxPhys: 4000}
 	off := rt.New(offOpts)
+	ex.setupReal(off.Env)
 	voff := off.Env.LoadString("c18", src)
 	c18ElideLog = map[c18Elided]bool{}
 	on := rt.New(onOpts)
+	ex.setupReal(on.Env)
 	von := on.Env.LoadString("c18", src)
 	elided := c18ElideLog
 	c18ElideLog = nil
@@ -453,6 +498,18 @@ func c18Run(w *fw.W, idx int) {
 	w.CoverKey(fmt.Sprintf("%s|%s|%s|%s|depth=%d", label, merr.Class, kinds, posClass, len(real)/3))
 	if hw != nil {
 		w.CoverKey(fmt.Sprintf("handler-work|%s|%s|%s|rethrown=%d", hw.kind, hw.term, merr.Class, min(merr.Rethrown, 4)))
+	}
+	if ex != nil {
+		w.CoverKey(fmt.Sprintf("expansion|%s|%s|uses=%d", ex.class(), merr.Class, ex.uses))
+		w.Count("expansion_programs_compared", 1)
+		w.Count("expansion_programs_compared:"+ex.fail, 1)
+		if ex.uses > 1 {
+			w.Count("expansion_programs_with_earlier_call_sites", 1)
+		}
+		w.SetAdd("expansion_slots_compared", ex.slot)
+		w.SetAdd("expansion_spellings_compared", ex.spell)
+		w.SetAdd("expansion_builders_compared", ex.builder)
+		w.SetAdd("expansion_classes_compared", ex.class())
 	}
 	for f := range feats {
 		if strings.HasPrefix(f, "hostile:") {
